@@ -287,7 +287,7 @@ def check(ctx):
                        f"drop_na then disagree with construction about what is missing")
             ctx.ob("NA-src", std, f"{subst.id} = {norm(v)[:80]}", at, okv, why,
                    clause="maps None and NaN to the missing value of the inferred type ... with and without an explicit dtype")
-    ctx.count("definitions of the substituted missing value", n_src, 2)
+    ctx.count("definitions of the substituted missing value", n_src, 1)
     nvf = repo.fn(f"{VEC}._std_to_np_na_value")
     seq = []
     for s in nvf.node.body:
@@ -296,6 +296,15 @@ def check(ctx):
             seq.append((norm(s.test), classify_value(r[0].value) if r else None))
         elif isinstance(s, ast.Return):
             seq.append(("else", classify_value(s.value)))
+    # a leading "the dtype is known -> its own na_value" case may live here instead of in the caller (NA-src covers it there)
+    known = [(t, v) for t, v in seq if t.endswith(" is not None") and isinstance(v, str) and v.endswith(".na_value")]
+    for t, v in known:
+        pn = t[:-len(" is not None")]
+        okk = pn in nvf.params and f", {pn})" in v.replace(" ", " ")
+        ctx.ob("NA-src", nvf, f"{t} -> {v}", nvf.node, okk,
+               "with a known dtype the missing value is the na_value of a vector of that dtype" if okk else
+               f"the known-dtype case of {nvf.name} does not take the na_value of a vector of that dtype", clause="with and without an explicit dtype")
+    seq = [x for x in seq if x not in known]
     vals = [v for _, v in seq]
     tests = [t for t, _ in seq]
     ok = vals == ["None", "na_object", "nan", "NaT", "None"] and tests[0] == "not types" and "str in types" in tests[1] \
@@ -308,16 +317,17 @@ def check(ctx):
     npa = repo.fn(f"{VEC}._np_array")
     DT = npa.params[2] if len(npa.params) > 2 else "dtype"
     n_conv = 0
+    sites = []
     for n in body_nodes(npa.node):
-        conv = None
-        if isinstance(n, ast.Assign) and isinstance(n.value, ast.Call) and isinstance(n.value.func, ast.Attribute) \
-                and n.value.func.attr in ("astype", "view") and n.value.args:
-            conv = n
+        if isinstance(n, ast.Call) and isinstance(n.func, ast.Attribute) and n.func.attr in ("astype", "view") and n.args:
+            sites.append(n)
+        elif isinstance(n, ast.Call) and repo.dotted(npa, n.func) in ("numpy.array", "numpy.asarray") and len(n.args) >= 2 \
+                and not (isinstance(n.args[1], ast.Name) and n.args[1].id == DT):
+            sites.append(n)
         elif isinstance(n, ast.Assign) and isinstance(n.targets[0], ast.Name) and n.targets[0].id == DT \
                 and not (isinstance(n.value, ast.Call) and isinstance(n.value.func, ast.Attribute) and n.value.func.attr == "_map_input_dtype"):
-            conv = n
-        if conv is None:
-            continue
+            sites.append(n)
+    for conv in sites:
         n_conv += 1
         fx = facts_at(npa, conv)
         okc = ("T", f"{DT} is None") in fx or ("F", f"{DT} is not None") in fx
@@ -325,7 +335,7 @@ def check(ctx):
                "the dtype is chosen by the library only where the caller left it open" if okc else
                f"{norm(conv)} also runs when the caller requested a dtype: an explicit dtype (e.g. 'U8' in a dtype map) is replaced, so "
                f"construction with an explicit dtype no longer gives that dtype", clause="with and without an explicit dtype")
-    ctx.count("dtype decisions of _np_array", n_conv, 2)
+    ctx.count("dtype decisions of _np_array", n_conv, 1)
     vecmod = repo.modules["dataiter.vector"]
     tc = [n for n in vecmod.tree.body if isinstance(n, ast.Assign) and norm(n.targets[0]) == "TYPE_CONVERSIONS"]
     ok = bool(tc) and isinstance(tc[0].value, ast.Dict) and {norm(k): norm(v) for k, v in zip(tc[0].value.keys, tc[0].value.values)} == \
@@ -359,9 +369,24 @@ def check(ctx):
     ok = False
     if len(masks) == 2:
         a_, b_ = masks["self"], masks["other"]
-        txt = " ".join(norm(r.value) for r in body_nodes(eq.node) if isinstance(r, ast.Return) and r.value is not None)
-        ok = (f"np.all({a_} == {b_})" in txt or f"np.all({b_} == {a_})" in txt or f"np.array_equal({a_}, {b_})" in txt) and \
-            (f"{S0}[~{a_}] == {O0}[~{b_}]" in txt or f"{O0}[~{b_}] == {S0}[~{a_}]" in txt)
+        from ..forms import expand as _expand, split_ifexp as _sx
+        MASK_EQ = (f"np.all({a_} == {b_})", f"np.all({b_} == {a_})", f"np.array_equal({a_}, {b_})", f"np.array_equal({b_}, {a_})",
+                   f"({a_} == {b_}).all()", f"({b_} == {a_}).all()")
+        ELEM_EQ = (f"{S0}[~{a_}] == {O0}[~{b_}]", f"{O0}[~{b_}] == {S0}[~{a_}]")
+        # names bound to the mask comparison
+        mask_names = {n.targets[0].id for n in body_nodes(eq.node) if isinstance(n, ast.Assign) and isinstance(n.targets[0], ast.Name)
+                      and norm(n.value) in MASK_EQ}
+        elem_rets = [r for r in body_nodes(eq.node) if isinstance(r, ast.Return) and r.value is not None
+                     and any(t in norm(r.value) for t in ELEM_EQ)]
+        good = bool(elem_rets)
+        for r in elem_rets:
+            txt = norm(r.value)
+            fx = facts_at(eq, r)
+            gated = any(m in txt for m in MASK_EQ) or any(mn in txt.split(" and ")[0] for mn in mask_names if " and " in txt) \
+                or any((k == "T" and (t in MASK_EQ or t in mask_names)) or (k == "F" and t.startswith("not ") and t[4:] in mask_names)
+                       for k, t in fx)
+            good = good and gated
+        ok = good
     ctx.ob("NA-flow", eq, "equal: same missing positions AND equal non-missing elements", eq.node, ok,
            "both vectors' NA masks are compared and the non-missing elements of each are compared with each other" if ok else
            "equal does not compare the two NA masks (or indexes both vectors with one mask): a missing value on one side matches "
@@ -397,7 +422,8 @@ def check(ctx):
                "datetime64 vector of NaT instead of an object vector of None", clause="None otherwise")
     tl = repo.fn(f"{VEC}.tolist")
     rets = [n for n in body_nodes(tl.node) if isinstance(n, ast.Return)]
-    ok = len(rets) == 1 and norm(rets[0].value) == f"np.where({tl.params[0]}.is_na(), None, {tl.params[0]}).tolist()"
+    from ..forms import expand as _expand
+    ok = len(rets) == 1 and norm(_expand(tl, rets[0].value, rets[0])) == f"np.where({tl.params[0]}.is_na(), None, {tl.params[0]}).tolist()"
     ctx.ob("NA-flow", tl, norm(rets[0].value) if rets else "tolist", rets[0] if rets else tl.node, ok,
            "None exactly at the missing positions, the element elsewhere" if ok else
            "tolist no longer is np.where(self.is_na(), None, self).tolist()", clause="tolist returns the original values with None at the missing positions")
@@ -409,7 +435,7 @@ def check(ctx):
            clause="replace_na replaces exactly the missing positions")
     dn = repo.fn(f"{VEC}.drop_na")
     rets = [n for n in body_nodes(dn.node) if isinstance(n, ast.Return)]
-    ok = bool(rets) and norm(rets[0].value).startswith(f"{dn.params[0]}[~{dn.params[0]}.is_na()]")
+    ok = bool(rets) and norm(_expand(dn, rets[0].value, rets[0])).startswith(f"{dn.params[0]}[~{dn.params[0]}.is_na()]")
     ctx.ob("NA-flow", dn, norm(rets[0].value) if rets else "drop_na", rets[0] if rets else dn.node, ok,
            "exactly the non-missing positions are kept" if ok else "drop_na does not keep exactly the non-missing positions",
            clause="drop_na removes exactly the missing positions")
